@@ -21,7 +21,12 @@ use crate::config::find_ignore_file_path;
 mod config;
 mod opt;
 mod output_diff;
+#[cfg(stylua_verif)]
+mod verif_sched;
 
+#[cfg(stylua_verif)]
+static EXIT_CODE: verif_sched::SchedAtomicI32 = verif_sched::SchedAtomicI32::new(0);
+#[cfg(not(stylua_verif))]
 static EXIT_CODE: AtomicI32 = AtomicI32::new(0);
 static UNFORMATTED_FILE_COUNT: AtomicU32 = AtomicU32::new(0);
 
